@@ -116,7 +116,43 @@ func (x *exec) condDesc(v ssa.Value) string {
 	if u, ok := v.(*ssa.UnOp); ok && u.Op == token.NOT {
 		return "!" + x.condDesc(u.X)
 	}
+	// no source text: name the test by the operands we can describe, else by its line offset
+	// inside the function (stable against edits elsewhere in the file)
+	if bo, ok := v.(*ssa.BinOp); ok {
+		l, r := x.operandDesc(bo.X), x.operandDesc(bo.Y)
+		if l != "" && r != "" {
+			return l + " " + bo.Op.String() + " " + r
+		}
+	}
+	if in, ok := v.(ssa.Instruction); ok && in.Parent() != nil {
+		for _, bi := range in.Block().Instrs {
+			if p := bi.Pos(); p.IsValid() {
+				return fmt.Sprintf("test@+%d", x.e.Fset.Position(p).Line-x.e.Fset.Position(in.Parent().Pos()).Line)
+			}
+		}
+	}
 	return v.Name()
+}
+
+func (x *exec) operandDesc(v ssa.Value) string {
+	if c, ok := v.(*ssa.Const); ok {
+		if c.Value == nil {
+			return "nil"
+		}
+		return c.Value.ExactString()
+	}
+	if s, ok := x.e.condText[v.Pos()]; ok && s != "" {
+		return s
+	}
+	if c, ok := v.(*ssa.Call); ok {
+		if f := c.Call.StaticCallee(); f != nil {
+			return f.Name() + "()"
+		}
+		if c.Call.IsInvoke() {
+			return c.Call.Method.Name() + "()"
+		}
+	}
+	return ""
 }
 
 func (x *exec) pushFrame(st *State, fn *ssa.Function, args []Val, bind []Val, k func(*State, Outcome)) {
@@ -560,6 +596,17 @@ func (x *exec) runInstrs(st *State, b *ssa.BasicBlock, idx int) {
 		case *ssa.Return:
 			var vals []Val
 			for _, r := range ins.Results {
+				// `return v, f(&v)`: go/ssa loads v before the call, the gc compiler reads plain
+				// variables after all calls of the statement. Follow gc: re-load a local variable
+				// whose load precedes a call in the same block.
+				if ld, ok := r.(*ssa.UnOp); ok && ld.Op == token.MUL && ld.Block() == b {
+					if _, isAlloc := ld.X.(*ssa.Alloc); isAlloc && callBetween(b, ld, i) {
+						if p, isPtr := x.get(st, ld.X).(*PtrV); isPtr {
+							vals = append(vals, x.load(st, p))
+							continue
+						}
+					}
+				}
 				vals = append(vals, x.get(st, r))
 			}
 			x.ret(st, vals)
@@ -603,6 +650,23 @@ func (x *exec) runInstrs(st *State, b *ssa.BasicBlock, idx int) {
 			return
 		}
 	}
+}
+
+// callBetween: is there a call instruction between the load ld and instruction index upto of block b?
+func callBetween(b *ssa.BasicBlock, ld ssa.Instruction, upto int) bool {
+	seen := false
+	for j := 0; j < upto && j < len(b.Instrs); j++ {
+		if b.Instrs[j] == ld {
+			seen = true
+			continue
+		}
+		if seen {
+			if _, ok := b.Instrs[j].(*ssa.Call); ok {
+				return true
+			}
+		}
+	}
+	return false
 }
 
 func (x *exec) jump(st *State, from, to *ssa.BasicBlock) {
